@@ -54,8 +54,9 @@ TarStart == /\ pc = "start" /\ scn.ep \in {"tar", "lnk"}
             /\ base' = Out /\ todo' = scn.ents /\ pc' = "extract"
             /\ UNCHANGED <<scn, fs, plan, touched>>
 ExtractKind(k) == /\ pc = "extract" /\ todo # <<>> /\ Head(todo).k = k
-                  /\ LET r == ApplyEntry(fs, base, Head(todo)) IN fs' = r.fs /\ touched' = touched \cup r.touched
-                  /\ todo' = Tail(todo)
+                  /\ LET r == ApplyEntry(fs, base, Head(todo)) IN
+                       /\ fs' = r.fs /\ touched' = touched \cup r.touched
+                       /\ todo' = IF r.halt THEN <<>> ELSE Tail(todo)      \* a refused entry: Extract returns the error
                   /\ UNCHANGED <<scn, pc, base, plan>>
 ExtractDir == ExtractKind("dir")
 ExtractReg == ExtractKind("reg")
